@@ -126,6 +126,23 @@ package dsl
 // are pointers for that reason.
 //@ json-numbers C04 package
 //@ observe-args encoding/json.Marshal
+// A reference is written by its (qualified) name; the compact spelling - the bare name - only when it carries no type
+// arguments (`Image<float>` and `Image<double>` are different encodings and must not share a schema text).
+//@ func (*SimpleType).MarshalJSON
+//@   property C04
+//@   requires t != nil
+//@   ensures a_bare_name_means_no_type_arguments: typeof(lastArg("encoding/json.Marshal", 0)) == string ==> len(t.TypeArguments) == 0 && lastArg("encoding/json.Marshal", 0).(string) == t.Name
+// A union case is written as null for the null case, as its bare type when it has no tag, and with its tag otherwise;
+// a single case stands for itself, several cases are a list.
+//@ func (*TypeCase).MarshalJSON
+//@   property C04
+//@   requires tc != nil
+//@   ensures the_null_case_is_written_as_null: tc.IsNullType() ==> lastArg("encoding/json.Marshal", 0) == nil
+//@   ensures an_untagged_case_is_its_type: !tc.IsNullType() && tc.Tag == "" ==> lastArg("encoding/json.Marshal", 0) == tc.Type
+//@ func (TypeCases).MarshalJSON
+//@   property C04
+//@   ensures a_single_case_stands_for_itself: len(tcs) == 1 ==> typeof(lastArg("encoding/json.Marshal", 0)) == *TypeCase && lastArg("encoding/json.Marshal", 0).(*TypeCase) == tcs[0]
+//@   ensures several_cases_are_a_list: len(tcs) != 1 ==> typeof(lastArg("encoding/json.Marshal", 0)) != *TypeCase
 //@ func (ArrayDimensions).MarshalJSON
 //@   property C04
 //@   invariant 0: forall k in 0..rangeindex+1 :: (dims[k].Name == nil && dims[k].Length == nil)
@@ -616,6 +633,38 @@ package dsl
 //@ spec func isST(t Type) bool = typeof(GetUnderlyingType(t)) == *SimpleType && GetUnderlyingType(t).(*SimpleType) != nil
 //@ spec func vecOf(t Type) *Vector = ugt(t).Dimensionality.(*Vector)
 //@ spec func isVec(t Type) bool = isGT(t) && typeof(ugt(t).Dimensionality) == *Vector && ugt(t).Dimensionality.(*Vector) != nil
+// ---- Generic instantiation (C09 rules on instantiated definitions, C01/C14 serializers of `G<A>`, C06 comparison of
+// generic definitions): inside the definition being instantiated a reference to its i-th type parameter becomes the
+// i-th type argument; a shallow instantiation leaves references alone; every referenced definition *object* that has not
+// been rewritten yet is rewritten (two references to one generic with different arguments hold two different definition
+// objects of one name: each gets its own instantiation).
+//@ func MakeGenericType$1
+//@   property C09,C06,C01,C14
+//@   invariant 0: forall k in 0..rangeindex+1 :: meta.TypeParameters[k] != targetParam
+//@   ensures a_shallow_instantiation_leaves_references_alone: typeof(node) == *SimpleType && shallow ==> result == node
+//@   ensures a_reference_to_a_type_parameter_becomes_its_argument: typeof(node) == *SimpleType && node.(*SimpleType) != nil && !shallow && typeof(old(node.(*SimpleType).ResolvedDefinition)) == *GenericTypeParameter ==> (forall k in 0..old(len(meta.TypeParameters)) :: (old(meta.TypeParameters[k]) == old(node.(*SimpleType).ResolvedDefinition).(*GenericTypeParameter) && (forall j in 0..k :: old(meta.TypeParameters[j]) != old(node.(*SimpleType).ResolvedDefinition).(*GenericTypeParameter)) ==> result == old(typeArguments[k])))
+//@   ensures a_definition_object_not_yet_rewritten_is_rewritten: typeof(node) == *SimpleType && node.(*SimpleType) != nil && !shallow && typeof(old(node.(*SimpleType).ResolvedDefinition)) != *GenericTypeParameter && !old(node.(*SimpleType).ResolvedDefinition in rewrittenDefinitions) ==> called("dsl.(*Rewriter).Rewrite")
+// C06: before two versions of a generic definition are compared the new one is re-expressed in the old one's type
+// parameters - throughout (fields and aliased types refer to parameters by identity), not only in its header.
+//@ observe-args dsl.MakeGenericType
+//@ func resolveGenericDefinition
+//@   property C06,C05
+//@   ensures the_new_definition_is_instantiated_throughout: called(MakeGenericType) ==> lastArg(MakeGenericType, 2) == false
+// C05: the old definitions that codegen names `<Name>_<label>`: every definition object reached is looked at (two
+// references to one generic definition hold two objects of one name; both are renamed).
+//@ func renameOldTypeDefinitions$1
+//@   property C05
+//@   ensures a_definition_object_not_yet_seen_is_looked_at: typeof(node) == TypeDefinition && typeof(node) != PrimitiveDefinition && !old(visited[node.(TypeDefinition)]) ==> called("dsl.(Visitor).VisitChildren")
+
+// Definitions: one definition equals itself; `size` and `uint64` are one type on the wire and equal in either order
+// (the verdict of a rule that compares two unions may not depend on which of them is defined first); apart from that
+// pair, definitions with different names or namespaces differ; a different number of type arguments differs.
+//@ func TypeDefinitionsEqual
+//@   property C06,C13,C09
+//@   ensures a_definition_equals_itself: a == b ==> result
+//@   ensures size_and_uint64_are_equal_in_both_orders: ((a == PrimitiveSize && b == PrimitiveUint64) || (a == PrimitiveUint64 && b == PrimitiveSize)) && old(a.GetDefinitionMeta().Name) != old(b.GetDefinitionMeta().Name) ==> result
+//@   ensures a_missing_definition_equals_only_a_missing_one: a != b && ((a == nil) != (b == nil)) ==> !result
+//@   ensures other_names_differ: a != nil && b != nil && a != b && !((a == PrimitiveSize && b == PrimitiveUint64) || (a == PrimitiveUint64 && b == PrimitiveSize)) && (old(a.GetDefinitionMeta().Name) != old(b.GetDefinitionMeta().Name) || old(a.GetDefinitionMeta().Namespace) != old(b.GetDefinitionMeta().Namespace)) ==> !result
 //@ func TypesEqual
 //@   property C06,C13,C09
 //@   ensures a_type_equals_itself: a == b ==> result
@@ -654,6 +703,15 @@ package dsl
 // arguments is an error; whatever comes back (the call itself or the literal it was simplified to) has type `size`.
 // (The arguments are rewritten first, through callbacks that may report errors of their own, so "is an error" is stated
 // as "an error is added to a sink by this function", not as a comparison with the length of the sink on entry.)
+// C10 (termination) / C09: the expression of a switch case is resolved in the scope of the switch - same record, same
+// memo of resolved fields and the same chain of computed fields being resolved (the chain is what detects a cycle of
+// computed fields; a case that starts an empty chain recurses until the stack is gone) - plus, for a declaration pattern,
+// the declared variable.
+//@ func resolveSwitchCase
+//@   property C10,C09,C19
+//@   requires switchCase != nil && context != nil && self != nil && errorSink != nil
+//@   ensures the_case_expression_is_resolved_in_the_scope_of_the_switch: called("dsl.(*RewriterWithContext[*ComputedFieldScope]).Rewrite[*github.com/microsoft/yardl/tooling/pkg/dsl.ComputedFieldScope]") ==> lastArg("dsl.(*RewriterWithContext[*ComputedFieldScope]).Rewrite[*github.com/microsoft/yardl/tooling/pkg/dsl.ComputedFieldScope]", 2) != nil && lastArg("dsl.(*RewriterWithContext[*ComputedFieldScope]).Rewrite[*github.com/microsoft/yardl/tooling/pkg/dsl.ComputedFieldScope]", 2).Record == old(context.Record) && lastArg("dsl.(*RewriterWithContext[*ComputedFieldScope]).Rewrite[*github.com/microsoft/yardl/tooling/pkg/dsl.ComputedFieldScope]", 2).RewrittenFields == old(context.RewrittenFields) && len(lastArg("dsl.(*RewriterWithContext[*ComputedFieldScope]).Rewrite[*github.com/microsoft/yardl/tooling/pkg/dsl.ComputedFieldScope]", 2).CurrentFields) == old(len(context.CurrentFields)) && (forall k in 0..old(len(context.CurrentFields)) :: lastArg("dsl.(*RewriterWithContext[*ComputedFieldScope]).Rewrite[*github.com/microsoft/yardl/tooling/pkg/dsl.ComputedFieldScope]", 2).CurrentFields[k] == old(context.CurrentFields[k]))
+//@   ensures a_declaration_pattern_adds_its_variable: called("dsl.(*RewriterWithContext[*ComputedFieldScope]).Rewrite[*github.com/microsoft/yardl/tooling/pkg/dsl.ComputedFieldScope]") && typeof(old(switchCase.Pattern)) == *DeclarationPattern ==> len(lastArg("dsl.(*RewriterWithContext[*ComputedFieldScope]).Rewrite[*github.com/microsoft/yardl/tooling/pkg/dsl.ComputedFieldScope]", 2).Variables) == old(len(context.Variables)) + 1 && lastArg("dsl.(*RewriterWithContext[*ComputedFieldScope]).Rewrite[*github.com/microsoft/yardl/tooling/pkg/dsl.ComputedFieldScope]", 2).Variables[old(len(context.Variables))] == old(switchCase.Pattern).(*DeclarationPattern)
 //@ func resolveDimensionCountFunctionCall
 //@   property C09,C19
 //@   requires errorSink != nil && functionCall != nil && visitor != nil
